@@ -111,7 +111,7 @@ Proof. exact maxdatalen_datagram_fits. Qed.
 Print Assumptions C08_maxdatalen_datagram.
 
 (** Regression (fixed finding frames/maxdatalen-overshoot-large): MaxDataLen(16390) of a CRYPTO frame
-    at offset 0 used to admit 16386 bytes (a 16392-byte frame); it now admits 16384 bytes and the
+    at offset 0 used to allow 16386 bytes (a 16392-byte frame); it now allows 16384 bytes and the
     frame has exactly 16390 bytes. *)
 Example C08_maxdatalen_large_regression :
   maxdatalen_crypto 0 16390 = 16384 /\
@@ -455,6 +455,43 @@ Example C08_tparams_reject_example :
   unmarshal Server false (enc_params [(TP_ID_iscid, [1])]) = Err E_TP_MISSING_ODCID 0.
 Proof. exact ex_range_rejected. Qed.
 Print Assumptions C08_tparams_reject_example.
+(** Claim (c) for transport parameters (possible since the repairs of max_idle_timeout / min_ack_delay):
+    everything Unmarshal accepts from a byte string is a well-formed value; Marshal's encoding of it
+    (whatever the 18 random bytes of the greased parameter) is accepted again and yields the same
+    value — parse -> Marshal -> parse is a fixpoint — except that a saturated max_idle_timeout
+    (2^63-1 ns) comes back cut to whole milliseconds. *)
+From V Require Import Wire.TParamsReencode.
+
+Theorem C08_tparams_parsed_wf : forall pers b p,
+  bytes b -> unmarshal pers false b = Ok p ->
+  tp_wf p /\ (tp_mit p <> maxInt64 -> tp_norm pers p = p).
+Proof. exact unmarshal_wf. Qed.
+Print Assumptions C08_tparams_parsed_wf.
+
+Theorem C08_tparams_reencode : forall pers rnd b p,
+  bytes b -> length rnd = 18%nat -> Forall is_byte rnd ->
+  unmarshal pers false b = Ok p ->
+  unmarshal pers false (marshal pers rnd p) = Ok (tp_norm pers p) /\
+  (tp_mit p <> maxInt64 -> unmarshal pers false (marshal pers rnd p) = Ok p).
+Proof. exact tparams_reencode. Qed.
+Print Assumptions C08_tparams_reencode.
+
+Example C08_tparams_reencode_nonvacuous :
+  bytes (enc_params ex_ps_server) /\
+  (exists p, unmarshal Server false (enc_params ex_ps_server) = Ok p /\ tp_mit p <> maxInt64) /\
+  (* regressions of the three repaired findings: an explicit 0 means "none", huge values saturate / are refused *)
+  (exists p, unmarshal Server false (enc_params (ex_ps_server ++ [(TP_ID_mit, vappend 0)])) = Ok p /\ tp_mit p = 0) /\
+  (exists p, unmarshal Server false (enc_params (ex_ps_server ++ [(TP_ID_mit, vappend (2 ^ 62 - 2))])) = Ok p /\ tp_mit p = maxInt64) /\
+  is_err (unmarshal Server false (enc_params (ex_ps_server ++ [(TP_ID_minad, vappend (2 ^ 61))]))).
+Proof.
+  split; [vm_compute; repeat constructor; discriminate|].
+  split; [eexists; split; [vm_compute; reflexivity | vm_compute; discriminate]|].
+  split; [eexists; split; vm_compute; reflexivity|].
+  split; [eexists; split; vm_compute; reflexivity|].
+  vm_compute. exact I.
+Qed.
+Print Assumptions C08_tparams_reencode_nonvacuous.
+
 (* ==== end tparams ==== *)
 (* ==== headers ==== *)
 (** Packet headers (coq/Wire/Headers.v mirrors internal/wire/header.go, extended_header.go,
